@@ -253,17 +253,28 @@ func (r *registryState) kvDefsLocked() []rt.Def {
 	return out
 }
 
+// kvTextLocked is the manual configuration text as watchKV/listKV assemble it from the KV pairs: per key a
+// comment line naming the key and the trimmed value, the keys joined by an empty line.
+func (r *registryState) kvTextLocked() string {
+	var parts []string
+	for _, k := range r.kvKeysLocked() {
+		parts = append(parts, "# --- "+r.kvPath+"/"+k+"\n"+strings.TrimSpace(rt.Text(r.kv[k])))
+	}
+	return strings.Join(parts, "\n\n")
+}
+
 // Snapshot is the final registry state shipped to the Lean side.
 type Snapshot struct {
 	Checks  []CheckJ `json:"checks"`
 	Catalog []InstJ  `json:"catalog"`
 	KV      []rt.Def `json:"kv"`
+	KVText  string   `json:"kvtext"`
 }
 
 func (r *registryState) snapshot() Snapshot {
 	r.mu.Lock()
 	defer r.mu.Unlock()
-	return Snapshot{Checks: r.checksLocked(), Catalog: r.catalogLocked("", true), KV: r.kvDefsLocked()}
+	return Snapshot{Checks: r.checksLocked(), Catalog: r.catalogLocked("", true), KV: r.kvDefsLocked(), KVText: r.kvTextLocked()}
 }
 
 // ---- HTTP ----
